@@ -37,7 +37,7 @@ type tcase struct {
 	Layout []mimegen.Chunk `json:"layout,omitempty"`
 	// layout case only: the arrival paths the specification wants this group's cases run through
 	Arrivals []string `json:"arrivals,omitempty"`
-	Exp    struct {
+	Exp      struct {
 		Strong bool  `json:"strong"`
 		Value  []int `json:"value"`
 	} `json:"exp"`
